@@ -19,9 +19,9 @@ func init() {
 		Explanation: "Shadowing is implemented by paired Begin/End calls and by Shadow at declaration sites. SCO-PAIR: a depth dataflow over go/cfg of every function that opens scopes: on every path Begin/End are balanced and properly nested (depth agrees at every merge, is never negative, and is zero at every exit, including the breaks that leave a case early). SCO-SWAP: in case func the locals table is saved, replaced by a fresh one before the body is compiled and restored afterwards on every path; c.Returns is pushed and popped; the cases that set c.FuncName restore it. SCO-DECL: a slot of c.Locals keyed by a token's text is obtained with lookup.Index only (a) inside compiler.Shadow, (b) on a path where c.Locals.Exists(key) was tested true (a use), (c) in the freshly installed table of a function (parameters), or with a hidden key built from a position; any other such call declares a script variable without shadowing. SCO-ORDER: name resolution tests function-local type, local, package global, builtin in that order, and import aliases are resolved only when no local of that name exists. Not decided: correctness of lookup.shadow/unshadow/Drop renaming for every depth and order (an algorithmic invariant); 'fresh on every iteration'. SCO-BLOCK: every body block (then/else, for/range body, case/default body) is compiled between its own Begin and End. SCO-CHAIN: order facts that make the ~-chain of lookup.shadow/unshadow/Drop a stack (recurse-then-store in shadow; store-then-recurse, no clobber of ~key after the recursion in unshadow; delete-then-unshadow in Drop).",
 		Quick: []ruleDef{
 			{"SCO-PAIR", 1, ruleScoPair},
-			{"SCO-SWAP", 9, ruleScoSwap},
-			{"SCO-DECL", 5, ruleScoDecl},
-			{"SCO-ORDER", 7, ruleScoOrder},
+			{"SCO-SWAP", 6, ruleScoSwap},
+			{"SCO-DECL", 4, ruleScoDecl},
+			{"SCO-ORDER", 4, ruleScoOrder},
 			{"SCO-BLOCK", 6, ruleScoBlock},
 			{"SCO-CHAIN", 6, ruleScoChain},
 			{"SCO-IMPORTSET", 2, ruleScoImportSet},
